@@ -125,7 +125,7 @@ def make_entry(eid, prog, results, cx, dedupe=True):
         texts.append({"teal": [{k: v for k, v in ins.items() if k != "ln"} for ins in te["teal"]],
                       "R": te["R"], "tag": te["tag"], "cmp": cmpk})
         meta.append({"tags": [te["tag"]], "problems": te["problems"], "text": r["teal"], "st": st})
-    entry = {"id": eid, "recipe": {"main": prog["main"], "rt": prog.get("rt", [])}, "cx": cx, "texts": texts,
+    entry = {"id": eid, "recipe": {"main": prog["main"], "rt": prog.get("rt", []), "vars": prog.get("vars", [])}, "cx": cx, "texts": texts,
              "vars": prog.get("vars", []), "req": sorted(v["slot"] for v in prog.get("vars", []) if v.get("slot", -1) >= 0)}
     return entry, meta
 
